@@ -9,6 +9,8 @@ def dispatch (j : Json) : Except String Json := do
   | "welford" => opWelford j
   | "es" => opES j
   | "storage" => opStorage j
+  | "welford_f" => opWelfordF j
+  | "es_f" => opESF j
   | "ping" => pure (Json.mkObj [("pong", Json.bool true)])
   | o => .error s!"unknown op {o}"
 
